@@ -30,7 +30,8 @@ type expect struct {
 type control struct {
 	Name   string   `json:"name"`
 	Kind   string   `json:"kind"` // positive | negative
-	Edits  []edit   `json:"edits"`
+	Edits  []edit   `json:"edits,omitempty"`
+	Patch  string   `json:"patch,omitempty"` // unified diff (path relative to /verif) applied instead of edits
 	Expect []expect `json:"expect,omitempty"`
 	Rules  []string `json:"rules,omitempty"` // negative: rules that must stay silent
 	Quick  bool     `json:"quick,omitempty"`
@@ -97,6 +98,18 @@ func (c control) rulesFor(p *props.Prop) []string {
 
 func (c control) overlay() (map[string][]byte, string) {
 	ov := map[string][]byte{}
+	if c.Patch != "" {
+		b, err := os.ReadFile(filepath.Join(*flagVerif, c.Patch))
+		if err != nil {
+			return nil, "patch missing: " + c.Patch
+		}
+		if why := applyUnifiedDiff(string(b), *flagRepo, ov); why != "" {
+			return nil, "patch does not apply: " + why
+		}
+		if len(ov) == 0 {
+			return nil, "patch changes nothing"
+		}
+	}
 	for _, e := range c.Edits {
 		path := filepath.Join(*flagRepo, e.File)
 		src, ok := ov[path]
@@ -349,4 +362,127 @@ func debugControl(name string) int {
 	}
 	fmt.Println("no such control")
 	return 2
+}
+
+// applyUnifiedDiff applies a `git diff` to the files under root and puts the results into ov.
+// Hunks are applied by position and every context/removed line is verified, so a patch written
+// against another revision of a file is reported instead of being applied somewhere else.
+func applyUnifiedDiff(diff, root string, ov map[string][]byte) string {
+	lines := strings.Split(diff, "\n")
+	var cur string
+	var src, out []string
+	pos := 0
+	flush := func() {
+		if cur == "" {
+			return
+		}
+		out = append(out, src[pos:]...)
+		ov[filepath.Join(root, cur)] = []byte(strings.Join(out, "\n"))
+		cur, src, out, pos = "", nil, nil, 0
+	}
+	for i := 0; i < len(lines); i++ {
+		ln := lines[i]
+		switch {
+		case strings.HasPrefix(ln, "diff --git "):
+			flush()
+		case strings.HasPrefix(ln, "+++ "):
+			flush()
+			name := strings.TrimSpace(strings.TrimPrefix(ln, "+++ "))
+			if name == "/dev/null" {
+				return "file deletion is not supported"
+			}
+			name = strings.TrimPrefix(name, "b/")
+			cur = name
+			if i > 0 && strings.HasPrefix(lines[i-1], "--- /dev/null") {
+				src = nil
+			} else {
+				b, err := os.ReadFile(filepath.Join(root, name))
+				if err != nil {
+					return "file missing: " + name
+				}
+				src = strings.Split(string(b), "\n")
+			}
+			out, pos = nil, 0
+		case strings.HasPrefix(ln, "@@ ") && cur != "":
+			var ol, oc, nl, nc int
+			oc, nc = 1, 1
+			hdr := strings.Fields(ln)
+			if len(hdr) < 3 {
+				return "bad hunk header"
+			}
+			parse := func(s string, l, c *int) {
+				s = s[1:]
+				if j := strings.Index(s, ","); j >= 0 {
+					fmt.Sscanf(s[:j], "%d", l)
+					fmt.Sscanf(s[j+1:], "%d", c)
+				} else {
+					fmt.Sscanf(s, "%d", l)
+				}
+			}
+			parse(hdr[1], &ol, &oc)
+			parse(hdr[2], &nl, &nc)
+			start := ol - 1
+			if oc == 0 {
+				start = ol
+			}
+			_ = nl
+			// collect the hunk
+			var oldBlk, newBlk []string
+			seenOld, seenNew := 0, 0
+			for (seenOld < oc || seenNew < nc) && i+1 < len(lines) {
+				i++
+				h := lines[i]
+				switch {
+				case strings.HasPrefix(h, "\\"):
+					// "\ No newline at end of file"
+				case strings.HasPrefix(h, "+"):
+					newBlk = append(newBlk, h[1:])
+					seenNew++
+				case strings.HasPrefix(h, "-"):
+					oldBlk = append(oldBlk, h[1:])
+					seenOld++
+				case strings.HasPrefix(h, " "), h == "":
+					body := ""
+					if len(h) > 0 {
+						body = h[1:]
+					}
+					oldBlk = append(oldBlk, body)
+					newBlk = append(newBlk, body)
+					seenOld++
+					seenNew++
+				default:
+					return "unexpected line in hunk: " + h
+				}
+			}
+			// locate it: at the stated position, or at the nearest position (the file may have
+			// gained or lost lines since the patch was written) where the old block matches
+			matchAt := func(at int) bool {
+				if at < pos || at+len(oldBlk) > len(src) {
+					return false
+				}
+				for k, l := range oldBlk {
+					if src[at+k] != l {
+						return false
+					}
+				}
+				return true
+			}
+			at := -1
+			for d := 0; d <= len(src) && at < 0; d++ {
+				if matchAt(start + d) {
+					at = start + d
+				} else if d > 0 && matchAt(start-d) {
+					at = start - d
+				}
+			}
+			if at < 0 {
+				return fmt.Sprintf("hunk @@ -%d,%d of %s matches nowhere", ol, oc, cur)
+			}
+			out = append(out, src[pos:at]...)
+			out = append(out, newBlk...)
+			pos = at + len(oldBlk)
+		}
+	}
+	flush()
+	return ""
 }
